@@ -1,6 +1,7 @@
 package main
 
 import (
+	"regexp"
 	"fmt"
 	"go/token"
 	"go/types"
@@ -446,6 +447,24 @@ func ruleC17_3(c *Ctx, r *Rep) {
 				if bt, isB := cv.X.Type().Underlying().(*types.Basic); isB && (bt.Kind() == types.Int64 || bt.Kind() == types.Uint64) {
 					nf++
 					r.Fail("C17.3", fmt.Sprintf("C17.3:float-duration#%d@%s", nf, c.Key(f)), cv.Pos(), "the stored-duration codec converts a 64-bit count (a duration) to float64: float64 has 53 bits of mantissa, so long durations with nanosecond detail do not survive storage exactly")
+				}
+			}
+		}
+	}
+	// a hand-written writer: a decimal fraction printed without a fixed zero-padded width loses its leading zeros
+	// (1.005 s written as "01.5")
+	fracRe := regexp.MustCompile(`\.%(d|v|s)`)
+	for _, f := range c.Funcs {
+		if c.PkgOf(f) != "internal/sqltypes" {
+			continue
+		}
+		for _, ci := range callsIn(f, false, func(cal *ssa.Function, _ ssa.CallInstruction) bool {
+			return fnPkgPath(cal) == "fmt" && (strings.HasPrefix(cal.Name(), "Sprint") || strings.HasPrefix(cal.Name(), "Fprint") || strings.HasPrefix(cal.Name(), "Append"))
+		}) {
+			for _, a := range ci.Common().Args {
+				if format, isS := constString(a); isS && fracRe.MatchString(format) {
+					nf++
+					r.Fail("C17.3", fmt.Sprintf("C17.3:fraction-width#%d@%s", nf, c.Key(f)), ci.Pos(), "the stored-duration writer prints a fractional part with a variable-width verb (format "+fmt.Sprintf("%q", format)+"): leading zeros of the fraction are lost, so 1.005s is stored as 1.5s")
 				}
 			}
 		}
